@@ -1237,7 +1237,7 @@ MANIFEST = {
                  "Poet::MakeSentence (abstract syllable graph, table index and prism) + extracted-model/real-translator "
                  "correspondence (candidate lists with sentences; rime::Poet directly on generated word graphs) "
                  "+ brute-force reference from the source rows",
-    "text": "Properties_C07.v (73 theorems, no axioms) proves of the model, for every graph, table, prism and input: Table::Query "
+    "text": "Properties_C07.v (74 theorems, no axioms) proves of the model, for every graph, table, prism and input: Table::Query "
             "returns at each end position exactly the index codes labelling a path (codes > 3 syllables through the tail page and "
             "match_extra_code, registered at the farthest end); the script translator's phrase candidates are exactly the table "
             "entries whose code is spelled from 0 (C07_script_candidates_exact, C07_collector_exact), every such entry survives "
